@@ -6,7 +6,7 @@ GtState); SDK side: h-sdk c31s evaluates gmsol_programs' copy on the same Store 
 import vlib
 from props import c24
 
-SCHEMA = {"a": "Int", "b": "Int", "referred": "Bool", "ok": "Bool", "v": "Int", "uok": "Bool", "uv": "Int",
+SCHEMA = {"a": "Int", "b": "Int", "referred": "Bool", "rank_ok": "Bool", "ok": "Bool", "v": "Int", "uok": "Bool", "uv": "Int",
           "sdk_ok": "Bool", "sdk": "Int"}
 
 
@@ -54,6 +54,8 @@ def run(ctx):
     ctx.run_bin("c31s", ["merge", "--in", wp, "--stores", wst, "--out", wm])
     os.remove(wst)
     wev = vlib.read_ndjson(wm)
+    for e in wev:
+        e["rank_ok"] = e["rank"] <= e["max_rank"]
     for e in wev:                      # a panic is a violation on its own (Apalache sees flat numeric events only)
         if e["panic"]:
             ctx.report(classify(e, "NoPanic"), {"driver": "h-programs c31 wide", "event": e})
